@@ -21,6 +21,9 @@ import (
 type tierCfg struct {
 	// Ranges: one [lo,hi] per harness parameter; instances = cartesian product.
 	Ranges   [][2]int `json:"ranges"`
+	// Instances: explicit argument tuples (used instead of Ranges when present).
+	Instances [][]int `json:"instances,omitempty"`
+	Solver    string  `json:"solver,omitempty"`
 	MaxSteps int      `json:"max_steps,omitempty"`
 	MaxDecs  int      `json:"max_decs,omitempty"`
 	MaxPaths int      `json:"max_paths,omitempty"`
@@ -226,16 +229,20 @@ func runCheck(repo, prop, tier string, seed, workers int, only string) int {
 			continue
 		}
 		tc := h.Quick
-		if tier == "thorough" && len(h.Thorough.Ranges) > 0 || tier == "thorough" && h.Thorough.MaxSteps > 0 {
+		if tier == "thorough" && (len(h.Thorough.Ranges) > 0 || h.Thorough.MaxSteps > 0 || len(h.Thorough.Instances) > 0) {
 			tc = h.Thorough
 		}
 		if tc.Skip {
 			continue
 		}
-		for _, args := range expandRanges(tc.Ranges) {
+		insts := expandRanges(tc.Ranges)
+		if len(tc.Instances) > 0 {
+			insts = tc.Instances
+		}
+		for _, args := range insts {
 			km, kl := mkKnown("")
 			rc := interp.RunConfig{Harness: h.Name, Args: args, MaxSteps: tc.MaxSteps, MaxDecs: tc.MaxDecs, MaxPaths: tc.MaxPaths, MaxConc: tc.MaxConc,
-				Known: km, StopOnViolation: true, CrossCheck: cross, CrossTimeout: 60 * time.Second}
+				Known: km, StopOnViolation: true, CrossCheck: cross, CrossTimeout: 60 * time.Second, Solver: tc.Solver}
 			res, err := interp.Explore(prog, pool, rc)
 			if err != nil {
 				fmt.Fprintln(os.Stderr, "explore:", err)
@@ -343,7 +350,7 @@ func runCheck(repo, prop, tier string, seed, workers int, only string) int {
 	if only == "" {
 		for _, h := range cfg.Harnesses {
 			tc := h.Quick
-			if tier == "thorough" && len(h.Thorough.Ranges) > 0 {
+			if tier == "thorough" && (len(h.Thorough.Ranges) > 0 || len(h.Thorough.Instances) > 0) {
 				tc = h.Thorough
 			}
 			if tc.Skip {
@@ -498,10 +505,10 @@ func boundsOf(cfg *checkCfg, tier string) map[string]interface{} {
 	b := map[string]interface{}{}
 	for _, h := range cfg.Harnesses {
 		tc := h.Quick
-		if tier == "thorough" && len(h.Thorough.Ranges) > 0 {
+		if tier == "thorough" && (len(h.Thorough.Ranges) > 0 || len(h.Thorough.Instances) > 0) {
 			tc = h.Thorough
 		}
-		b[h.Name] = map[string]interface{}{"parameter_ranges": tc.Ranges, "max_steps": tc.MaxSteps, "what": h.What}
+		b[h.Name] = map[string]interface{}{"parameter_ranges": tc.Ranges, "parameter_instances": tc.Instances, "max_steps": tc.MaxSteps, "what": h.What}
 	}
 	return b
 }
@@ -760,18 +767,22 @@ func nativeReplay(prog *interp.Program, repo, vd, prop string, cases []replayCas
 	for dir, cs := range byDir {
 		pkgName := prog.Harnesses[cs[0].Harness].Pkg.Pkg.Name()
 		overlay := map[string]string{}
+		odirs := map[string]string{}
 		for v, real := range prog.Overlay {
-			if filepath.Dir(v) == dir {
-				overlay[v] = real
+			overlay[v] = real
+			if data, err := os.ReadFile(real); err == nil {
+				odirs[filepath.Dir(v)] = interp.PackageClause(data)
 			}
 		}
-		rt, err := interp.RtSource(filepath.Join(vd, "harness"), pkgName)
-		if err != nil {
-			return nil, err
+		for od, pn := range odirs {
+			rt, err := interp.RtSource(filepath.Join(vd, "harness"), pn)
+			if err != nil {
+				return nil, err
+			}
+			rtPath := filepath.Join(scratch, sanitize(od)+"_"+pn+"_rt.go")
+			os.WriteFile(rtPath, []byte(rt), 0o644)
+			overlay[filepath.Join(od, "zz_verif_rt.go")] = rtPath
 		}
-		rtPath := filepath.Join(scratch, pkgName+"_rt.go")
-		os.WriteFile(rtPath, []byte(rt), 0o644)
-		overlay[filepath.Join(dir, "zz_verif_rt.go")] = rtPath
 		// test file with registry
 		var names []string
 		for n, h := range prog.Harnesses {
